@@ -140,9 +140,9 @@ def tocLegacy (f : File) : List (String × Kind) → TocState → Rd → Outcome
     | .panic p => .panic p
     | .diverge => .diverge
 
-/-- `reader.readTOCSections(toc, tags)` -/
-def readTOCSections (f : File) (tags : List Bytes) : Outcome TocState :=
-  match readHeader f with
+/-- `readTOCSections` after `readHeader` returned `hdr` -/
+def readTOCAfter (f : File) (tags : List Bytes) (hdr : Outcome (SimpleSection × Nat × Nat)) : Outcome TocState :=
+  match hdr with
   | .ok (toc, count, pos) =>
     if count = 0 then
       tocLoop f tags ((toc.off + toc.sz) % two32) (f.data.length + 2) [] ⟨pos⟩
@@ -152,5 +152,8 @@ def readTOCSections (f : File) (tags : List Bytes) : Outcome TocState :=
   | .err e => .err e
   | .panic p => .panic p
   | .diverge => .diverge
+
+/-- `reader.readTOCSections(toc, tags)` -/
+def readTOCSections (f : File) (tags : List Bytes) : Outcome TocState := readTOCAfter f tags (readHeader f)
 
 end ZoektModel.C11
